@@ -19,6 +19,8 @@ theorem setLoc_loc (s : St) (t u : Tid) (l : Loc) : (setLoc s t l).loc u = if u 
 @[simp] theorem setLoc_seqCounter (s : St) (t : Tid) (l : Loc) : (setLoc s t l).seqCounter = s.seqCounter := rfl
 @[simp] theorem setLoc_now (s : St) (t : Tid) (l : Loc) : (setLoc s t l).now = s.now := rfl
 @[simp] theorem setLoc_outstanding (s : St) (t : Tid) (l : Loc) : (setLoc s t l).outstanding = s.outstanding := rfl
+@[simp] theorem setLoc_eof (s : St) (t : Tid) (l : Loc) : (setLoc s t l).eof = s.eof := rfl
+@[simp] theorem setLoc_closed (s : St) (t : Tid) (l : Loc) : (setLoc s t l).closed = s.closed := rfl
 @[simp] theorem setLoc_issued (s : St) (t : Tid) (l : Loc) : (setLoc s t l).issued = s.issued := rfl
 @[simp] theorem setLoc_nsent (s : St) (t : Tid) (l : Loc) : (setLoc s t l).nsent = s.nsent := rfl
 @[simp] theorem setLoc_answer (s : St) (t : Tid) (l : Loc) : (setLoc s t l).answer = s.answer := rfl
@@ -39,6 +41,8 @@ theorem setCell_cells (s : St) (q r : Seq) (c : Cell) : (setCell s q c).cells r 
 @[simp] theorem setCell_seqCounter (s : St) (q : Seq) (c : Cell) : (setCell s q c).seqCounter = s.seqCounter := rfl
 @[simp] theorem setCell_now (s : St) (q : Seq) (c : Cell) : (setCell s q c).now = s.now := rfl
 @[simp] theorem setCell_outstanding (s : St) (q : Seq) (c : Cell) : (setCell s q c).outstanding = s.outstanding := rfl
+@[simp] theorem setCell_eof (s : St) (q : Seq) (c : Cell) : (setCell s q c).eof = s.eof := rfl
+@[simp] theorem setCell_closed (s : St) (q : Seq) (c : Cell) : (setCell s q c).closed = s.closed := rfl
 @[simp] theorem setCell_issued (s : St) (q : Seq) (c : Cell) : (setCell s q c).issued = s.issued := rfl
 @[simp] theorem setCell_nsent (s : St) (q : Seq) (c : Cell) : (setCell s q c).nsent = s.nsent := rfl
 @[simp] theorem setCell_answer (s : St) (q : Seq) (c : Cell) : (setCell s q c).answer = s.answer := rfl
@@ -56,6 +60,8 @@ theorem setCell_cells (s : St) (q r : Seq) (c : Cell) : (setCell s q c).cells r 
 @[simp] theorem markDispatched_seqCounter (s : St) (f : Frame) : (markDispatched s f).seqCounter = s.seqCounter := rfl
 @[simp] theorem markDispatched_now (s : St) (f : Frame) : (markDispatched s f).now = s.now := rfl
 @[simp] theorem markDispatched_outstanding (s : St) (f : Frame) : (markDispatched s f).outstanding = s.outstanding := rfl
+@[simp] theorem markDispatched_eof (s : St) (f : Frame) : (markDispatched s f).eof = s.eof := rfl
+@[simp] theorem markDispatched_closed (s : St) (f : Frame) : (markDispatched s f).closed = s.closed := rfl
 @[simp] theorem markDispatched_issued (s : St) (f : Frame) : (markDispatched s f).issued = s.issued := rfl
 @[simp] theorem markDispatched_nsent (s : St) (f : Frame) : (markDispatched s f).nsent = s.nsent := rfl
 @[simp] theorem markDispatched_answer (s : St) (f : Frame) : (markDispatched s f).answer = s.answer := rfl
@@ -71,7 +77,7 @@ def PC.holdsCond : PC → Bool
 
 /-- the thread holds the receive lock -/
 def PC.holdsRecv : PC → Bool
-  | .s3 | .p0 | .r0 => true
+  | .s3 | .p0 | .x0 | .r0 => true
   | _ => false
 
 /-- the thread has a received frame in hand that it has not yet dispatched -/
@@ -86,7 +92,7 @@ def PC.completing : PC → Bool
 
 /-- inside `serve()` (after `Timeout(timeout)` was computed) -/
 def PC.inServe : PC → Bool
-  | .s1 | .s2 | .s2w | .zz | .s2r | .s3 | .p0 | .r0 | .n0 | .n1 | .n2 | .d0 | .d1 | .d2 | .d3 | .d4 | .d5 => true
+  | .s1 | .s2 | .s2w | .zz | .s2r | .s3 | .p0 | .x0 | .r0 | .n0 | .n1 | .n2 | .d0 | .d1 | .d2 | .d3 | .d4 | .d5 => true
   | _ => false
 
 /-- the client thread owns a live request (its `seq` field is meaningful) -/
